@@ -32,14 +32,19 @@ HOST = "10.0.0.1"
 class Sub:
     """A recording subscriber (async callable)."""
 
-    def __init__(self, world, name: str, raises: bool = False, yields: int = 0) -> None:
+    def __init__(self, world, name: str, raises: bool = False, yields: int = 0, inside=None) -> None:
         self.world = world
         self.name = name
         self.raises = raises
         self.yields = yields
+        self.inside = list(inside or [])  # subscribe / unsubscribe steps performed from within the first callback
 
     async def __call__(self, *args, **kw):
         self.world.trace.add("sub.call", k=self.name, args=tuple(_p(a) for a in args))
+        if self.inside:
+            steps, self.inside = self.inside, []
+            for st in steps:
+                self.world.op_user_subscribe(dict(st, inside=True))
         for _ in range(self.yields):
             await asyncio.sleep(0)
         if self.raises:
@@ -356,14 +361,17 @@ class World:
         name = step["name"]
         sub = self.subs.get(name)
         if sub is None:
-            sub = self.subs[name] = Sub(self, name, raises=step.get("raises", False), yields=step.get("sub_yields", 0))
+            sub = self.subs[name] = Sub(self, name, raises=step.get("raises", False), yields=step.get("sub_yields", 0), inside=step.get("then"))
         obj = self.resolve(step["target"])
         if obj is None:
             self.trace.add("user.subscribe_skipped", k=name)
             return
         method = step.get("method", "subscribe")
         getattr(obj, method)(sub)
-        self.trace.add("user.subscribe", k=name, m=method, target=tuple(step["target"]))
+        if step.get("inside"):
+            self.trace.add("user.subscribe", k=name, m=method, target=tuple(step["target"]), inside=True)
+        else:
+            self.trace.add("user.subscribe", k=name, m=method, target=tuple(step["target"]))
 
     def op_user_sock_subscribe(self, step) -> None:
         """Extra message subscriber on the bare socket (may raise, may yield)."""
